@@ -203,9 +203,9 @@ fn run_seed(base: u64, run: u64) -> u64 {
     splitmix64(&mut x)
 }
 
-fn write_replay(dir: &Path, build: &str, base_seed: u64, run: u64, m: &minimise::Minimised, unminimised: &sim::Scenario) -> PathBuf {
+fn write_replay(dir: &Path, build: &str, tag: &str, base_seed: u64, run: u64, m: &minimise::Minimised, unminimised: &sim::Scenario) -> PathBuf {
     let _ = std::fs::create_dir_all(dir);
-    let path = dir.join(format!("C19-sim-{build}-{base_seed}-{run}.json"));
+    let path = dir.join(format!("C19-sim-{build}{tag}-{base_seed}-{run}.json"));
     let mut j = Json::obj();
     j.set("kind", Json::s("simulation"));
     j.set("property", Json::s("C19"));
@@ -213,6 +213,10 @@ fn write_replay(dir: &Path, build: &str, base_seed: u64, run: u64, m: &minimise:
     j.set("verif_seed", Json::u(base_seed));
     j.set("run", Json::u(run));
     j.set("class", Json::s(&m.violation.class()));
+    j.set(
+        "expectations",
+        Json::s(if m.canonical { "fresh-process" } else { "reference-pass" }),
+    );
     let mut v = Json::obj();
     v.set("client", Json::u(m.violation.client as u64));
     v.set("op", if m.violation.op == usize::MAX { Json::Null } else { Json::u(m.violation.op as u64) });
@@ -307,11 +311,31 @@ fn cmd_sim(a: &Args) {
                     candidates_tried: 0,
                     original_ops: 0,
                     final_ops: 0,
+                    canonical: false,
                 }
             } else {
                 minimise::minimise(&sc, v, Duration::from_secs(a.u64("minimise-seconds", 20)))
             };
-            let path = write_replay(&replay_dir, &build, base_seed, run, &m, &sc);
+            let mut path = write_replay(&replay_dir, &build, "", base_seed, run, &m, &sc);
+            if !stalled && !minimise::reproduces_in_fresh_process(&m.scenario, &m.violation.class()) {
+                // the violation needs what earlier runs of this worker process left behind
+                // (process-wide state of the lexer): the replay unit is the batch of runs
+                let mut j = Json::parse(&std::fs::read_to_string(&path).unwrap_or_default()).unwrap_or_else(|_| Json::obj());
+                j.set("kind", Json::s("simulation-batch"));
+                j.set("from", Json::u(from));
+                j.set("tier", Json::s(a.get("tier").unwrap_or("quick")));
+                j.set(
+                    "exclude",
+                    Json::Arr(g.exclude.iter().map(|x| Json::s(x)).collect()),
+                );
+                j.set(
+                    "note",
+                    Json::s("the scenario alone does not fail in a fresh process; it fails after the earlier runs [from, run) of the same worker, which this file replays"),
+                );
+                let _ = std::fs::remove_file(&path);
+                path = replay_dir.join(format!("C19-simbatch-{build}-{base_seed}-{from}-{run}.json"));
+                let _ = std::fs::write(&path, j.to_string_pretty());
+            }
             let _ = writeln!(out, "violation\t{run}\t{}\t{}", m.violation.class(), path.display());
             let _ = out.flush();
             println!(
@@ -357,14 +381,28 @@ fn cmd_replay(a: &Args) {
     let class = j.get("class").and_then(Json::as_str).unwrap_or("").to_string();
     // recompute the clean-room expectation of every source in this process, before any
     // simulation has run in it
+    // (each in its own fresh child process when there are few, so that process-wide state of a
+    // changed lexer cannot leak from one source's reference into another's; the recorded
+    // expectations are kept when the scenario has too many sources for that)
+    let recorded = j.get("expectations").and_then(Json::as_str) == Some("reference-pass");
+    if recorded {
+        println!("note: expectations are those recorded by the reference pass of the failing check (valid for the tree it ran on)");
+    }
+    let many = recorded || sc.sources.len() > 64;
     for s in &mut sc.sources {
-        let key = match clean_room(&s.text) {
-            RefResult::Done(o) => o.key(),
-            RefResult::Stalled => {
-                println!("VIOLATION property=C19 replay={path}");
-                println!("  clean-room call on source {} stalled", s.id);
-                std::process::exit(EXIT_VIOLATION);
-            }
+        if many {
+            continue;
+        }
+        let key = match minimise::expect_in_child_pub(&s.text) {
+            Some(k) if k != "S" => k,
+            _ => match clean_room(&s.text) {
+                RefResult::Done(o) => o.key(),
+                RefResult::Stalled => {
+                    println!("VIOLATION property=C19 replay={path}");
+                    println!("  clean-room call on source {} stalled", s.id);
+                    std::process::exit(EXIT_VIOLATION);
+                }
+            },
         };
         if key != s.expect {
             println!("note: clean-room outcome of source {} is now {} (recorded {})", s.id, key, s.expect);
@@ -396,6 +434,33 @@ fn cmd_replay(a: &Args) {
             println!("replay: the recorded violation no longer reproduces ({} ops executed)", r.outcomes.len());
         }
     }
+}
+
+/// Runs a scenario file as it is (recorded expectations, no recomputation) and prints its
+/// violations as TSV. Used by the minimiser to judge every candidate in a fresh process.
+fn cmd_eval(a: &Args) {
+    let path = a.pos.get(1).unwrap_or_else(|| die("eval: missing file"));
+    let text = std::fs::read_to_string(path).unwrap_or_else(|e| die(&format!("{path}: {e}")));
+    let j = Json::parse(&text).unwrap_or_else(|e| die(&format!("{path}: {e}")));
+    let sc = scenario_from_json(&j).unwrap_or_else(|e| die(&e));
+    let r = run_scenario(&sc);
+    for v in &r.violations {
+        println!(
+            "violation\t{}\t{}\t{}\t{}\t{}\t{}\t{}",
+            v.client,
+            v.op,
+            v.what,
+            v.src,
+            v.expected,
+            v.got,
+            v.detail.replace(['\t', '\n'], " ")
+        );
+    }
+    if r.violations.iter().any(|v| v.what == "stall") {
+        std::process::exit(0);
+    }
+    println!("eval-done");
+    std::process::exit(0);
 }
 
 fn cmd_lexone(a: &Args) {
@@ -529,12 +594,12 @@ fn cmd_sweep(a: &Args) {
                 let mut s = sc.clone();
                 let upto = r.outcomes.len() + 1;
                 s.clients[0].truncate(upto);
-                minimise::Minimised { scenario: s, violation: v.clone(), candidates_tried: 0, original_ops: sc.clients[0].len(), final_ops: upto }
+                minimise::Minimised { scenario: s, violation: v.clone(), candidates_tried: 0, original_ops: sc.clients[0].len(), final_ops: upto, canonical: false }
             } else {
                 minimise::minimise(&sc, v, Duration::from_secs(a.u64("minimise-seconds", 60)))
             };
             // the unminimised scenario is the whole catalogue: keep only the minimised one
-            let path = write_replay(&replay_dir, &format!("{build}-sweep"), base_seed, perm, &m, &m.scenario);
+            let path = write_replay(&replay_dir, &build, "-sweep", base_seed, perm, &m, &m.scenario);
             println!(
                 "sim-violation build={build} sweep perm={perm} class={} expected={} got={} replay={}",
                 m.violation.class(),
@@ -584,6 +649,7 @@ fn main() {
         Some("catalogue") => cmd_catalogue(&a),
         Some("keys") => cmd_keys(&a),
         Some("sweep") => cmd_sweep(&a),
+        Some("eval") => cmd_eval(&a),
         _ => {
             eprintln!("usage: c19sim ref|sim|replay|lexone|catalogue ...");
             std::process::exit(EXIT_HARNESS);
